@@ -255,18 +255,34 @@ def tree_case(col, rng, n=None, depth=None):
     wit = {'tree': desc, 'spec': short(spec), 'style': style}
     if col.want_sample('tree'):
         col.sample({'tree': desc, 'spec_repr': short(spec), 'style': style, 'coordinates': n}, 'tree')
-    for bits in itertools.product([0, 1], repeat=n):
-        target = tuple(bits)
-        col.case((shape(node), style, bits), nontrivial)
-        want_log = []
-        want = denote(node, target, want_log)
-        del log[:]
-        got = call(G, target, Match(spec))
-        compare(col, desc, got, want, target, list(log), want_log, 'Match', wit)
-        if pure:
+    trees = [(node, spec, desc, pure, '')]
+    if supports_ops(spec) and rng.random() < 0.5:
+        # the spec is used as an operand of further & | ~ expressions (twice with |: two different extensions of one base).
+        # Each derived spec denotes its own expression and the base keeps denoting the original one.
+        for kind in ('or', 'and', 'or'):
+            counter[0] += 1
+            extra = gen_atom(rng, n, counter[0], log)
+            dnode = (kind, [node, extra], None)
+            dspec = (spec | extra[1]['spec']) if kind == 'or' else (spec & extra[1]['spec'])
+            trees.append((dnode, dspec, describe(dnode), pure and extra[1]['m_pure'], ':derived-with-operator'))
+        trees.append((('not', node), ~spec, 'Not(%s)' % desc, pure, ':derived-with-operator'))
+        trees.append((node, spec, desc, pure, ':base-after-deriving'))
+        del trees[0]
+        col.count('operator_derivations_from_a_shared_base', 4)
+    for node, spec, desc, pure, suffix in trees:
+        wit = {'tree': desc, 'spec': short(spec), 'style': style, 'role': suffix}
+        for bits in itertools.product([0, 1], repeat=n):
+            target = tuple(bits)
+            col.case((shape(node), style, bits), nontrivial)
+            want_log = []
+            want = denote(node, target, want_log)
             del log[:]
-            got = call(G, target, spec)
-            compare(col, desc, got, want, target, list(log), want_log, 'bare', wit)
+            got = call(G, target, Match(spec))
+            compare(col, desc, got, want, target, list(log), want_log, 'Match' + suffix, wit)
+            if pure:
+                del log[:]
+                got = call(G, target, spec)
+                compare(col, desc, got, want, target, list(log), want_log, 'bare' + suffix, wit)
 
 
 def switch_case(col, rng):
